@@ -492,6 +492,51 @@ class _Renamed:
         return self._out(self.m.get_right_hand_side(self._in(st), t))
 
 
+def _same_path_rewrite(spec: dict, tag: str, root: str) -> dict | None:
+    """write(A, f); read(f); write(B, f); read(f) within one second, A and B differing in digits only (same file size): the
+    second read is B."""
+    import copy
+
+    from mxlpy import sbml
+
+    spec_b = copy.deepcopy(spec)
+    changed = {}
+    for c in spec_b["components"]:
+        if c["kind"] == "parameter" and "value" in c and isinstance(c["value"], float):
+            txt = repr(c["value"])
+            new = txt[:-1] + ("7" if txt[-1] != "7" else "3")  # same number of characters
+            if "e" not in txt and len(repr(float(new))) == len(txt):
+                c["value"] = float(new)
+                changed[c["name"]] = float(new)
+    if not changed:
+        return None
+    path = Path(root) / f"same_{tag}.xml"
+    try:
+        for _ in range(3):
+            t0 = int(__import__("time").time())
+            sbml.write(rm.build(spec), path)
+            size_a = path.stat().st_size
+            with core.time_limit(40):
+                sbml.read(path)
+            sbml.write(rm.build(spec_b), path)
+            with core.time_limit(40):
+                m_b = sbml.read(path)
+            if int(__import__("time").time()) == t0 and path.stat().st_size == size_a:
+                break
+        got = m_b.get_parameter_values()
+        bad = {k: (float(got.get(k, float("nan"))), v) for k, v in changed.items() if k in got and not core.close(got[k], v, 1e-12)}
+        if bad:
+            return {"what": "a file rewritten at the same path is read back as what it held before", "parameters(read, written)": bad}
+    except Exception:  # noqa: BLE001
+        return None  # (export / import problems of this model are the round trip's business)
+    finally:
+        try:
+            path.unlink()
+        except OSError:
+            pass
+    return None
+
+
 def plain_names(spec: dict) -> dict:
     """Twin: the same model with every name that needs escaping replaced by a plain identifier."""
     import copy
@@ -563,6 +608,11 @@ def run_case(case: dict) -> dict:
                 if not v["detail"].get("compared_name_blind") or v["what"].startswith("re-read model lacks original components under their names"):
                     v["mechanism"] = "C08-names-not-python-identifiers"
             counters["twin_with_plain_names_round_trips"] = 1
+    if exported and not viols and rng.random() < 0.3:
+        v2 = _same_path_rewrite(spec, tag, root)
+        counters["same_path_rewritten_and_read_again"] = 1
+        if v2:
+            viols.append(core.viol(v2.pop("what"), None, **v2, **ctx))
     for f in feats:
         counters[f"feat:{f}"] = 1
     hostile = [f for f in feats if f not in ("pow", "table_function", "math_constant", "docstring")]
